@@ -8,6 +8,7 @@ import Driver.Cap
 import Driver.Promise
 import Driver.Server
 import Driver.Rpc
+import Driver.RpcQ
 import Driver.Gen15
 import Driver.Pogs19
 /-! `modeld`: one operation per line on stdin, one canonical result per line on stdout. -/
@@ -24,6 +25,7 @@ def dispatch (line : String) : String :=
   | "promise" :: rest => Driver.Promise.run rest
   | "server" :: rest => Driver.Server.run rest
   | "rpc" :: rest => Driver.Rpc.run rest
+  | "rpcq" :: rest => Driver.RpcQ.run rest
   | "gen15" :: rest => Driver.Gen15.run rest
   | "pogs19" :: rest => Driver.Pogs19.run rest
   | "build" :: rest => Driver.Read.runBuild rest
